@@ -240,6 +240,29 @@ Fixpoint bin_pos (T : ptab) (e : expr) : bool :=
 Definition op_reads_back (o : dfop) : bool := 0 <? tp sq_tab (iop_of o).
 Definition binary_only (e : expr) : bool := bin_pos sq_tab e.
 
+(* ---------------------------------------------------------------- the candidate repair: parenthesise every non-atomic form *)
+(* (what expr_to_sql_inner would produce if NOT, unary minus, IS ..., LIKE and IN were wrapped in Nested like BinaryExpr is) *)
+Fixpoint to_ast_paren (e : expr) : ast :=
+  match e with
+  | EAtom n => AAtom n
+  | EBin o l r => ANested (AInfix (iop_of o) (to_ast_paren l) (to_ast_paren r))
+  | ELike k l r => ANested (AInfix (ILike k) (to_ast_paren l) (to_ast_paren r))
+  | ENot x => ANested (ANot (to_ast_paren x))
+  | ENeg x => ANested (ANeg (to_ast_paren x))
+  | EIs k x => ANested (APost k (to_ast_paren x))
+  | EIn neg x items => ANested (AIn neg (to_ast_paren x) items)
+  end.
+(* every operator of e has a positive precedence in table T (= the parser knows the token as an operator) *)
+Fixpoint ops_pos (T : ptab) (e : expr) : bool :=
+  match e with
+  | EAtom _ => true
+  | EBin o l r => (0 <? tp T (iop_of o)) && ops_pos T l && ops_pos T r
+  | ELike k l r => (0 <? tp T (ILike k)) && ops_pos T l && ops_pos T r
+  | ENot x | ENeg x => ops_pos T x
+  | EIs _ x => (0 <? p_is T) && ops_pos T x
+  | EIn _ x _ => (0 <? p_in T) && ops_pos T x
+  end.
+
 (* ---------------------------------------------------------------- boolean equalities (for the case checker) *)
 Definition postk_code (k : postk) : N :=
   match k with PIsNull => 0 | PIsNotNull => 1 | PIsTrue => 2 | PIsNotTrue => 3 | PIsFalse => 4 | PIsNotFalse => 5 | PIsUnknown => 6 | PIsNotUnknown => 7 end.
